@@ -93,6 +93,12 @@ def iter_source(it):
     it = strip_load(it)
     while True:
         if it[0] == "iter":
+            inner = strip_load(it[1])
+            # an iteration over a vector that was collected from another iteration walks that one (in the vector's order)
+            if inner[0] == "call" and inner[1].split("::")[-1] in ("collect", "collect_vec") and inner[2] and \
+                    strip_load(inner[2][0])[0] in ("iter", "adapt"):
+                it = strip_load(inner[2][0])
+                continue
             return it[1]
         if it[0] == "adapt":
             it = strip_load(it[2])
@@ -104,9 +110,19 @@ def iter_adaptors(it):
     """list of (name, extra-args) adaptors from the source outwards"""
     out = []
     it = strip_load(it)
-    while it[0] == "adapt":
-        out.append((it[1], it[3]))
-        it = strip_load(it[2])
+    while True:
+        if it[0] == "adapt":
+            out.append((it[1], it[3]))
+            it = strip_load(it[2])
+            continue
+        if it[0] == "iter":
+            inner = strip_load(it[1])
+            if inner[0] == "call" and inner[1].split("::")[-1] in ("collect", "collect_vec") and inner[2] and \
+                    strip_load(inner[2][0])[0] in ("iter", "adapt"):
+                out.append(("collect", (inner,)))
+                it = strip_load(inner[2][0])
+                continue
+        break
     out.reverse()
     return out
 
@@ -257,6 +273,9 @@ class Collector:
                     if (dcl.startswith("std::option::Option::<") or dcl.startswith("std::result::Result::<")) and cb.arg_count == 2 and \
                             c.get("name") in ("map", "and_then", "is_some_and", "is_ok_and", "map_or", "inspect", "filter", "ok_or_else"):
                         cmap[("param", 2)] = payload(it)     # Option/Result combinators hand the payload to the closure
+                    elif c.get("name") in ("fold", "try_fold") and cb.arg_count == 3 and len(args) >= 2:
+                        cmap[("param", 2)] = ("acc", site[0])                      # accumulator
+                        cmap[("param", 3)] = ("item", it, ("cl", site[0]))         # item
                     elif bind is not None and cb.arg_count >= 2:
                         cmap[("param", 2)] = ("item", it, ("cl", site[0]))
                     else:
